@@ -648,6 +648,14 @@ class UpdateCollection(Message):
             # MP_REACH_NLRI contains nexthop - use iter_routed() for RoutedNLRI
             announces.extend(reach.iter_routed())
 
+        # RFC 7606 section 2, treat-as-withdraw: "the UPDATE message containing the path attribute in
+        # question MUST be treated as though all contained routes had been withdrawn".  The marker was
+        # set by AttributeCollection.parse but nothing acted on it: the routes were announced to the API
+        # and stored in the Adj-RIB-In with whatever attributes could still be parsed.
+        if Attribute.CODE.INTERNAL_TREAT_AS_WITHDRAW in attributes:
+            withdraws.extend(routed.nlri for routed in announces)
+            announces = []
+
         return cls(announces, withdraws, attributes)
 
     # EOR prefix for non-IPv4-unicast families
